@@ -1,4 +1,5 @@
 """Poker properties C01, C03, C04, C07, C13 over traces of the real betting engine vs the Lean model."""
+import json
 from fractions import Fraction
 import random as random_mod
 from . import core, poker
@@ -577,7 +578,8 @@ class C15(PokerProp):
             return out
         S = poker.observe(g)
         out["S"] = S
-        log = [{"player": a.player, "action": a.action, "amount": a.amount} for a in g.actions]
+        # the log as the library itself serialises it (Action.to_dict), passed through a JSON round trip
+        log = json.loads(json.dumps([a.to_dict() for a in g.actions]))
         cls = poker.classes()[case["game"]]
         # (a) replay
         try:
@@ -605,10 +607,16 @@ class C15(PokerProp):
         try:
             fake = poker.FakeRandom(*case.get("samp", [0, 0])); poker.install_sampler(fake)
             kw = poker.cfg_kwargs(case)
-            g4 = cls(num_players=kw["num_players"], deck=list(g.deck), starting_stacks=kw["starting_stacks"], hands=kw["hands"],
-                     boards=[list(g.boards[0])], ante=kw["ante"], blinds=list(g.blinds), stacks=list(g.stacks), action=g.action,
-                     street=g.street, actions=(None if case.get("nolog") else list(g.actions)), last_actions=dict(g.last_actions),
-                     pot_balances=dict(g.pot.balances), all_in_runouts=kw["all_in_runouts"],
+            # the serialisable fields as the library exposes them (state_dict of the seat to act; stacks and deck are not
+            # part of that per-player view and are taken from the object), deep-copied as a serialisation would
+            from card_utils.games.poker.action import Action as ActionCls
+            sd = copy.deepcopy(g.state_dict(g.action if g.action is not None else 0))
+            g4 = cls(num_players=sd["num_players"], deck=list(g.deck), starting_stacks=list(sd["starting_stacks"]), hands=kw["hands"],
+                     boards=[list(sd["board"])], ante=sd["ante"], blinds=list(sd["blinds"]), stacks=list(g.stacks), action=sd["action"],
+                     street=sd["street"],
+                     actions=(None if case.get("nolog") else [ActionCls(**ad) for ad in json.loads(json.dumps(sd["actions"]))]),
+                     last_actions=dict(sd["last_actions"]),
+                     pot_balances=dict(sd["pot_balances"]), all_in_runouts=kw["all_in_runouts"],
                      rake_fraction=kw["rake_fraction"], max_rake=kw["max_rake"])
             g4._cv_fake = fake
             out["resume0"] = poker.observe(g4)
